@@ -149,8 +149,15 @@ enum KCL {
 
 fn check_cl(desc: &str, c: (f64, f64, f64), p: (f64, f64), q: (f64, f64), want: KCL, touch_at: Option<(f64, f64)>) -> Result<(), Violation> {
     let circle = Circle::new(Point::new(c.0, c.1), c.2);
-    for (u, v, order) in [(p, q, "p->q"), (q, p, "q->p"), (p, q, "Line::new(3a,3b,3c)"), (q, p, "Line::new(-a/2,-b/2,-c/2)")] {
-        let line = if order.starts_with("Line::new") {
+    for (u, v, order) in [(p, q, "p->q"), (q, p, "q->p"), (p, q, "Line::new(3a,3b,3c)"), (q, p, "Line::new(-a/2,-b/2,-c/2)"), (p, q, "Line::new(unit normal * (1 + 6e-10))"), (q, p, "Line::new(unit normal * (1 - 4e-10))"), (p, q, "Line::new(unit normal)")] {
+        let line = if order.starts_with("Line::new(unit") {
+            // coefficients that are already (almost) normalised: a normal whose length is 1 up to a few 1e-10
+            let (a, b) = (u.1 - v.1, v.0 - u.0);
+            let len = a.hypot(b);
+            let c0 = -(a * u.0 + b * u.1);
+            let k = if order.contains("+ 6e-10") { 1.0 + 6e-10 } else if order.contains("- 4e-10") { 1.0 - 4e-10 } else { 1.0 };
+            Line::new(a / len * k, b / len * k, c0 / len * k)
+        } else if order.starts_with("Line::new") {
             // the same line through the explicit-coefficient constructor, un-normalised on purpose
             let (a, b) = (u.1 - v.1, v.0 - u.0);
             let c0 = -(a * u.0 + b * u.1);
@@ -390,9 +397,9 @@ pub fn run_case(c: &Case) -> CaseResult {
         }
         Case::RealCL { x, y, r, theta, zone, f, span } => {
             let (cx, cy) = (*x as f64 / 1000.0, *y as f64 / 1000.0);
-            let r = (*r).max(10) as f64 / 1000.0;
+            let r = (*r).max(1) as f64 / 1000.0;
             let fr = *f as f64 / 65536.0;
-            let m = (0.02 * r).max(2e-3);
+            let m = (0.02 * r).max(2e-3).min(0.25 * r);
             let (dist, want) = if zone % 2 == 0 { (r + m + fr * r, KCL::None) } else { (fr * (r - m), KCL::Intersect) };
             let u = dir(*theta);
             let foot = (cx + dist * u.0, cy + dist * u.1);
@@ -406,7 +413,7 @@ pub fn run_case(c: &Case) -> CaseResult {
         }
         Case::TanCL { x, y, r, theta, span } => {
             let (cx, cy) = (*x as f64 / 1000.0, *y as f64 / 1000.0);
-            let r = (*r).max(10) as f64 / 1000.0;
+            let r = (*r).max(1) as f64 / 1000.0;
             let u = dir(*theta);
             let t = (cx + r * u.0, cy + r * u.1);
             let sp = 1.0 + *span as f64 / 100.0;
